@@ -66,3 +66,61 @@ package syncutil
 //@   call fn requires [C04:task-runs-under-its-region] args.arg0 == egCtx && args.arg1 == lr && args.arg2 == t
 //@   ensures [C04:task-releases-permit] lr != nil ==> lr.ended
 //@   ensures [C02:task-error-cancels-siblings] result != nil ==> ctxCause(cancelTarget(cancel)) != nil
+//@
+//@ // ---------------------------------------------------------------- merge of concurrent updates (C14)
+//@ // Data-structure level: every assigned item lands in exactly one batch (the open one, or
+//@ // the pending one while a batch is committed), a committed batch is handed to resolve
+//@ // whole, and completing a batch promotes the pending one. Interleavings are not explored:
+//@ // each method is verified as one critical section under m.lock (fields are only accessed
+//@ // with the lock held, or by the main goroutine of a committed batch).
+//@ pure mergeRI(m *Merge) bool = (m.status == nil ==> len(m.items) == 0) && (m.pendingStatus == nil) == (len(m.pending) == 0) && (!m.committed ==> len(m.pending) == 0)
+//@ callback PrepareCB
+//@   modifies all, except Merge.*
+//@ callback ResolveCB params items
+//@   modifies all, except Merge.*
+//@
+//@ func (*Merge[T]).assign
+//@   requires [wf] m != nil && mergeRI(m)
+//@   ensures [C14:item-joins-exactly-one-batch] old(m.committed) ==> len(m.pending) == old(len(m.pending)) + 1 && m.pending[len(m.pending) - 1] == item && len(m.items) == old(len(m.items)) && result == m.pendingStatus
+//@   ensures [C14:item-joins-exactly-one-batch] !old(m.committed) ==> len(m.items) == old(len(m.items)) + 1 && m.items[len(m.items) - 1] == item && len(m.pending) == old(len(m.pending)) && result == m.status
+//@   ensures [C14:earlier-items-kept] (forall i int :: 0 <= i && i < old(len(m.items)) ==> m.items[i] == old(m.items[i])) && (forall i int :: 0 <= i && i < old(len(m.pending)) ==> m.pending[i] == old(m.pending[i]))
+//@   ensures [C14:status-channel-exists] result != nil && mergeRI(m) && m.committed == old(m.committed)
+//@   ensures [C14:lock-released] held(lockOf(m, "lock")) == 0
+//@
+//@ func (*Merge[T]).commit
+//@   requires [wf] m != nil && mergeRI(m)
+//@   ensures [C14:whole-batch-committed] m.committed && result == old(m.items) && m.items == old(m.items) && mergeRI(m)
+//@   ensures [C14:lock-released] held(lockOf(m, "lock")) == 0
+//@
+//@ func (*Merge[T]).complete
+//@   requires [wf] m != nil && mergeRI(m) && m.committed && m.status != nil && len(m.items) >= 1
+//@   ensures [C14:pending-batch-promoted] !m.committed && m.items == old(m.pending) && m.status == old(m.pendingStatus) && len(m.pending) == 0 && m.pendingStatus == nil && mergeRI(m)
+//@   ensures [C14:lock-released] held(lockOf(m, "lock")) == 0
+//@
+//@ ghost local doPrepared bool
+//@ ghost local doPrepareErr error
+//@ ghost local doResolved bool
+//@ ghost local doResolveErr error
+//@ ghost local doCompleted bool
+//@ func (*Merge[T]).Do
+//@   requires [wf] m != nil && prepare != nil && resolve != nil
+//@   callee prepare PrepareCB
+//@   callee resolve ResolveCB
+//@   entry set doPrepared = false
+//@   entry set doResolved = false
+//@   entry set doCompleted = false
+//@   call prepare set doPrepared = true
+//@   call prepare set doPrepareErr = result
+//@   call commit requires [C14:prepare-before-the-batch-closes] doPrepared
+//@   call resolve requires [C14:resolve-only-after-successful-prepare-with-the-committed-batch] doPrepared && doPrepareErr == nil && args.items == items
+//@   call resolve set doResolved = true
+//@   call resolve set doResolveErr = result
+//@   call complete requires [C14:batch-completed-with-the-outcome] args.err == (doPrepareErr != nil ? doPrepareErr : doResolveErr) && (doPrepareErr == nil ==> doResolved)
+//@   call complete set doCompleted = true
+//@   ensures [C14:main-always-completes-its-batch] doPrepared ==> doCompleted
+//@   ensures [C14:outcome-returned] doPrepared ==> result == (doPrepareErr != nil ? doPrepareErr : doResolveErr)
+//@
+//@ func (*Pool[T]).Get
+//@   requires [wf] p != nil
+//@   ensures [C14:shared-value-per-key] result0 != nil && result1 != nil
+//@   modifies Pool.items@p, alloc, map[any]*poolItem, new poolItem.*
